@@ -182,6 +182,53 @@ Fixpoint keys_unique (a : atree) : Prop :=
 Definition forest_keys_unique (F : list atree) : Prop :=
   NoDup (map at_key F) /\ fold_right (fun c P => keys_unique c /\ P) True F.
 
+(* ---------- a stored entry holds a node of the tree ----------
+   entry e at offset off of the key table with index idx stores node a, child of p *)
+Definition entry_stores (f : file) (fo : fobjs) (idx off : Z) (e : sentry) (p : ident) (a : atree) : Prop :=
+  at_id a = (idx, off) /\ se_key e = at_key a /\ utf8_valid (at_key a) = true /\
+  norm_par (se_pidx e, se_poff e) = p /\
+  match at_payload a with
+  | PNode => se_type e mod 256 = 9
+  | PLeaf v => stored_as f fo (rentry_of off e) v
+  end.
+
+(* what a slot of a key table holds: a free entry (any size, any content) or a node *)
+Inductive slot := SlotFree | SlotNode (p : ident) (a : atree).
+
+Fixpoint slots_ok (f : file) (fo : fobjs) (idx off : Z) (es : list sentry) (ss : list slot) : Prop :=
+  match es, ss with
+  | [], [] => True
+  | e :: es', s :: ss' =>
+      match s with
+      | SlotFree => se_type e mod 256 = 1
+      | SlotNode p a => entry_stores f fo idx off e p a
+      end /\ slots_ok f fo idx (off + se_size e) es' ss'
+  | _, _ => False
+  end.
+
+Definition live_of (ss : list slot) : list lentry :=
+  flat_map (fun s => match s with SlotFree => [] | SlotNode p a => [top p a] end) ss.
+
+(* a stored key table: header fields, entries, tail, the size the object table records, and what the
+   slots hold *)
+Record stable := {
+  st_idx : Z; st_seq : Z; st_ck : Z; st_entries : list sentry; st_tail : list Z; st_size : Z;
+  st_slots : list slot }.
+
+Definition st_bytes (T : stable) : list Z := enc_ktable (st_idx T) (st_seq T) (st_ck T) (st_entries T) (st_tail T).
+
+Definition stable_ok (f : file) (fo : fobjs) (T : stable) : Prop :=
+  0 <= st_idx T < 2 ^ 16 /\ 0 <= st_seq T < 2 ^ 16 /\ 0 <= st_ck T < 2 ^ 32 /\
+  Forall sentry_ok (st_entries T) /\
+  ((st_tail T = [] /\ st_size T = 10 + total_size (st_entries T)) \/
+   (21 <= zlen (st_tail T) /\ firstn 4 (skipn 2 (st_tail T)) = [0; 0; 0; 0] /\
+    10 + total_size (st_entries T) < st_size T)) /\
+  slots_ok f fo (st_idx T) 10 (st_entries T) (st_slots T).
+
+(* what HyperVFile builds from the active key tables (Model.active_tables) *)
+Definition tables_of (f : file) (fo : fobjs) (kts : list ktable) : tables :=
+  map (fun kt => (kt_index kt, map (lentry_of f fo (kt_index kt)) (kt_entries kt))) kts.
+
 (* ---------- trees as dictionaries: equal up to the order of siblings ---------- *)
 Inductive tree_equiv : tree -> tree -> Prop :=
 | te_leaf v : tree_equiv (Leaf v) (Leaf v)
